@@ -5,7 +5,7 @@ from props import common
 FLAT = ["Point", "Line", "HalfLine", "Segment", "Plane"]
 POLYH = ["tet", "tet2", "cube", "box", "obl", "prism", "pyr", "octa", "wedge", "pprism", "ppyr", "hprism"]
 POLYG = ["tri", "triObl", "sq", "rectObl", "trap", "par", "pent", "pentObl", "hex", "hexObl"]
-INVS = ["BodyOK", "Typed", "InBoth", "AnalyticEqGeneric", "ProbesAgree", "Emit"]
+INVS = ["BodyOK", "Typed", "InBoth", "AnalyticEqGeneric", "ProbesAgree", "HitsSound", "Emit"]
 
 
 def run(res, pool, tier, seed):
@@ -24,7 +24,46 @@ def run(res, pool, tier, seed):
 def replay_case(case, tag, rng, tier):
     out = common.check_intersection(case, rng, 1, "C02.inter", ("func", "swapped"))
     out["cls"] = "|".join(str(x) for x in case["cls"])
+    h = case.get("hits")
+    if h and h["ok"]:
+        helpers(case, h["pts"], rng, out)
     return out
+
+
+def helpers(case, want, rng, out):
+    """the exported helper functions on the same case: point-hit set and longest segment of a collinear list"""
+    from geom import G, call, build, match_points, fl3, R, observe
+    a, b, s = case["a"], case["b"], case.get("s", 1)
+    pose = common.poses_for((a, b), rng, 1, s)[rng.randint(0, 1)]
+    la, lb = build(a, pose, "float"), build(b, pose, "float")
+    fn = G.get_segment_convexpolyhedron_intersection_point_set if b["k"] == "Polyhedron" else G.get_segment_convexpolygon_intersection_point_set
+    val, exc = call(fn, la, lb)
+    out["calls"] += 1
+    why = None
+    if exc is not None:
+        why = "raised %s at %s" % (exc["cls"], exc["site"])
+    else:
+        why = match_points([fl3(p) for p in val], [pose.pt(P) for P in want])
+    if why:
+        sig = {"op": fn.__name__, "kinds": [a["k"], b["k"]], "nhits": len(want)}
+        m, skip = common.mismatch("C02.helper_point_set", sig, "hit set: " + why, {"hits": want}, exc or {"k": "Seq", "n": len(val)}, pose, (a, b))
+        if m:
+            out["mism"].append(m)
+    exp = case["exp"]
+    if exp["k"] == "Segment" and rng.random() < 0.5:
+        # collinear points of the exact result (endpoints, midpoint, a quarter point) in a seeded order -> the segment itself
+        from fractions import Fraction as Fr
+        ea, eb = pose.pt(exp["a"]), pose.pt(exp["b"])
+        pts = [ea, eb, tuple((x + y) / 2 for x, y in zip(ea, eb)), tuple((3 * x + y) / 4 for x, y in zip(ea, eb))]
+        rng.shuffle(pts)
+        val, exc = call(G.get_segment_from_point_list, [G.Point(*[float(c) for c in p]) for p in pts])
+        out["calls"] += 1
+        why = R(exc or observe(val), exp, pose)
+        if why:
+            sig = {"op": "get_segment_from_point_list", "kinds": [a["k"], b["k"]]}
+            m, skip = common.mismatch("C02.helper_segment_from_points", sig, why, exp, exc or observe(val), pose, (a, b))
+            if m:
+                out["mism"].append(m)
 
 
 def finish(res):
